@@ -551,8 +551,40 @@ def r6(repo, run):
     n_calls = 0
     # entry points: the preprocess / evaluate implementations of node classes defined in modules that add sources anywhere
     # (in the method itself, a local closure or a private helper - all of which the tracer inlines)
+    adders = {}
+    for cn in ('Builder', 'SubBuilder'):
+        if cn in repo.classes:
+            for nm, mf in repo.classes[cn].methods.items():
+                if ('safe' in mf.params() or any(a_.arg == 'safe' for a_ in mf.node.args.kwonlyargs)) and not nm.startswith('__'):
+                    adders.setdefault(nm, mf)
+    # every other builder method that takes a `safe` flag applies it to whatever it adds: each document it adds comes from a
+    # source-adding call that receives this very flag (nothing is added that was parsed under somebody else's flag)
+    for nm, mf in sorted(adders.items()):
+        if nm == 'add_source':
+            continue
+        n_add = 0
+        for p in tr.paths_of(repo, mf, no_inline=NO_INLINE | (set(adders) - {nm}), follow_exceptions=False):
+            if p.status != 'return':
+                continue
+            for e in p.events:
+                if e.kind == 'call' and e.attr in adders and e.attr != nm:
+                    n_add += 1
+                    sv = e.kw.get('safe')
+                    if sv is None or not any(isinstance(x_, ast.Name) and x_.id == 'safe' for x_ in ast.walk(sv.ast)):
+                        run.violation('C07.R6', tr.where(mf, e), norm(e.node)[:90], 'Builder.%s adds a source with safe=%s: its own `safe` argument is not what the source is parsed under' % (nm, sv.text[:40] if sv is not None else '<nothing>'), node=e.node)
+                        break
+                elif e.kind == 'call' and e.attr in ('append', 'extend', 'insert') and e.recv is not None and e.recv.text.endswith('.stages'):
+                    n_add += 1
+                    run.violation('C07.R6', tr.where(mf, e), norm(e.node)[:90], 'on the path [%s] Builder.%s adds documents that were not parsed under its `safe` argument (%s): they keep the safety of whoever parsed them first, so content included from an unsafe place can come out as safe' % (tr.describe(p, 3), nm, e.args[-1].text[:50] if e.args else ''), node=e.node)
+                    break
+            else:
+                continue
+            break
+        else:
+            if n_add:
+                run.ok('C07.R6', mf, 'Builder.%s: every source it adds receives its safe flag' % nm)
     entries = [f for f in repo.cha('on_preprocess_impl', ayns=True) + repo.cha('on_evaluate_impl', ayns=True)
-               if f.cls is not None and ('add_source' in f.module.text or 'add_multiple_sources' in f.module.text)]
+               if f.cls is not None and any(a_ in f.module.text for a_ in adders)]
     todo = []
     for f in entries:
         try:
@@ -563,7 +595,7 @@ def r6(repo, run):
         seen = set()
         for p in ps:
             for e in p.events:
-                if e.kind == 'call' and e.attr in ('add_source', 'add_multiple_sources'):
+                if e.kind == 'call' and e.attr in adders:
                     k = norm(e.node)
                     if k in seen:
                         continue
@@ -722,6 +754,7 @@ def check(repo, run, tier):
 
 def mutants(repo):
     return [
+        Mutant('multiple-sources-drop-safe', lambda r: in_func(r, 'Builder.add_multiple_sources', "self.add_source(source, raw_yaml=raw, filename=fname, safe=sflag)", "self.add_source(source, raw_yaml=raw, filename=fname)"), ['C07.R6']),
         Mutant('unsafe-error-swallowed-in-strict-block', lambda r: in_func(r, 'EvalContext.require_all_safe', "        except errors.UnsafeError as e:\n            raise errors.EvalError(", "        except errors.UnsafeError as e:\n            pass\n        except ZeroDivisionError as e:\n            raise errors.EvalError("), ['C07.R3']),
         Mutant('F20-reverted-descendants-unchecked', lambda r: in_func(r, 'EvalContext.get_node', "if not path or unsafe_path == str(path) or unsafe_path.startswith(str(path) + '.') or unsafe_path.startswith(str(path) + '['):", "if unsafe_path == str(path):"), ['C07.R4c']),
         Mutant('call-gate-removed', lambda r: delete_stmt(r, 'CallNode.ayns.on_evaluate_impl', lambda t: '_require_safe' in t), ['C07.R1']),
